@@ -124,6 +124,15 @@ def pin_counting(case):
                 p.link("build", m4, ("gpg", m4 + "!"), M, P)
                 p.link("build", s1, ("gpg", s1 + "!"), M, P)
             tags, expect = ["gpg_subkeys_alone:40e6:" + case, "several_files_per_functionary:2"], "ThresholdVerificationError"
+        elif case == "same_key_filed_twice":
+            # ONE key filed under two entries of the layout's key store (its own id and an alias), both authorised,
+            # threshold 2, one agreeing link under each name, both signed by that key: still ONE functionary
+            alias = "ab" * 20
+            p.store({k0.keyid: k0.pub, alias: k0.pub})
+            p.step("build", [k0.keyid, alias], threshold=2)
+            p.link("build", k0.keyid, k0, M, P)
+            p.link("build", alias, k0, M, P)
+            tags, expect = ["key_filed_twice", "several_files_per_functionary:2"], "ThresholdVerificationError"
         elif case in ("master_and_subkey_files", ):
             # files of the master itself AND of its subkey, threshold 2, nobody else valid
             p.store({m4: g.pub(m4), k0.keyid: k0.pub})
@@ -194,7 +203,7 @@ PINNED = (
        ("D8:metablock", pin_d8(False)), ("D8:dsse", pin_d8(True))]
     + [("count:" + c, pin_counting(c)) for c in
        ("subkeys_count_once", "subkeys_count_once_enough", "two_subkeys_authorised_alone", "master_and_subkey_authorised",
-        "master_and_subkey_files", "expired_skipped",
+        "master_and_subkey_files", "same_key_filed_twice", "expired_skipped",
         "expired_not_counted", "expired_master_live_subkey", "subkey_file_loaded", "invalid_not_counted", "invalid_next_to_enough_valid",
         "gpg_sigdict:gpg_oh_nibble", "gpg_sigdict:gpg_sig_upper", "gpg_sigdict:gpg_oh_nonhex", "gpg_sigdict:gpg_oh_odd",
         "gpg_sigdict:gpg_short_keyid_nonhex")]
